@@ -36,6 +36,9 @@ func c16Gen(r *rand.Rand, tier string, idx int) any {
 	c := c16Case{}
 	c.W, c.H = 80, 24
 	c.Inputrc = "set history-autosuggest off\n"
+	if r.Intn(4) == 0 {
+		c.Inputrc += "set blink-matching-paren on\n"
+	}
 	c.Hist = c16Buffers
 	c.Entry = r.Intn(len(c16Buffers))
 	n := len([]rune(c16Buffers[c.Entry]))
@@ -263,6 +266,12 @@ func c16Run(env *fw.Env, raw json.RawMessage) fw.Outcome {
 			o.Add("yank_not_at_the_kill_point", 1)
 			o.Add("yank_not_at_the_kill_point:"+cmd, 1)
 		}
+		// "Killing and then immediately yanking at the same point restores the buffer": an Emacs
+		// kill command must leave the cursor where the text was taken (Vi x on the last
+		// character moves left, as in vi: documented assumption).
+		if c.Mode == "emacs" && !atCursor {
+			o.Viol("kill-leaves-the-cursor-away-from-the-kill-point|"+cmd+"|"+argCls, ctx+fmt.Sprintf(" before %q (pos %d), after %s %q: the text %q was taken at position %d, the cursor is at %d", b.Line, b.Pos, cmd, a.Line, a.Kill, found, a.Pos))
+		}
 	}
 	// after several kills, yank inserts the most recent one
 	if lastKill >= 0 && len(c.Kills) > 1 {
@@ -335,7 +344,7 @@ func init() {
 		ID:        "C16",
 		Level:     "exploration",
 		NeedsTerm: true,
-		Rule: "15 history-recalled buffers (punctuation, quotes, URLs, multi-line, multi-byte, tabs, blanks) x every cursor position (enumerated over the case list) x 10 Emacs kill commands bound by name (kill-line, backward-kill-line, unix-line-discard, kill-word, backward-kill-word, unix-word-rubout, shell-kill-word, shell-backward-kill-word, kill-whole-line, kill-region after set-mark + motion) with numeric arguments (none, 2, 3, -, -2), sequences of 2-3 kills separated by motions, and Vi x with counts followed by P; oracle: if the kill changed the buffer, the kill buffer R satisfies L1[:i] + R + L1[i:] == L for some i, and when i is the cursor position an immediate yank restores L exactly; after several kills yank inserts the most recent one; one Emacs case in three goes on after the yank with 1-3 commands that move or change the buffer without killing (case-word commands, transpose, insert, delete-char) and a second yank: the kill buffer must stay what the last kill took and the second yank must insert it. " +
+		Rule: "15 history-recalled buffers (punctuation, quotes, URLs, multi-line, multi-byte, tabs, blanks) x every cursor position (enumerated over the case list) x 10 Emacs kill commands bound by name (kill-line, backward-kill-line, unix-line-discard, kill-word, backward-kill-word, unix-word-rubout, shell-kill-word, shell-backward-kill-word, kill-whole-line, kill-region after set-mark + motion) with numeric arguments (none, 2, 3, -, -2), blink-matching-paren on in one case in four, sequences of 2-3 kills separated by motions, and Vi x with counts followed by P; oracle: if the kill changed the buffer, the kill buffer R satisfies L1[:i] + R + L1[i:] == L for some i, an Emacs kill leaves the cursor at such an i, and an immediate yank there restores L exactly; after several kills yank inserts the most recent one; one Emacs case in three goes on after the yank with 1-3 commands that move or change the buffer without killing (case-word commands, transpose, insert, delete-char) and a second yank: the kill buffer must stay what the last kill took and the second yank must insert it. " +
 			"distinct non-trivial = distinct (kill command, buffer class, cursor class, argument class) tuples",
 		Assumptions: []string{"Vi x on the last character moves the cursor left: P is then not at the same point and restoration is not demanded (as in vi)"},
 		N: func(tier string) int {
